@@ -126,25 +126,27 @@ func freeRunTemplate(eco string) string {
 func versionTemplates(eco, size string) []string {
 	var s, m, l []string
 	semverPre := "(-{n}|-{n}.{n}|-{i}{i}|-{n}{n}.{d})"
+	// the pair set also has a ten-digit numeric identifier (above 2^31) and a three-character one
+	semverPreM := "(-{n}|-{n}.{n}|-{i}{i}|-{n}{n}.{d}|-{D}{d}{d}{d}{d}{d}{d}{d}{d}{d}|-{i}{i}{i})"
 	semverPreL := "(-{n}|-{n}.{n}|-{i}{i}|-{n}{n}.{d}|-{d}{d}.{d}|-{i}.{i}.{i}|-{a}{a}{a}{a}.{d}{d}|-{i}{i}{i}|-{n}.{n}.{n}.{n}|--{d}|-{d}{d}{d}{d}{d}{d}{d}{d}{d}{d}{d}{d}{d}{d}{d}{d}{d}{d})"
 	switch eco {
 	case "semver", "cargo":
 		s = expandAll("{d}.{d}.{d}(|"+semverPre[1:len(semverPre)-1]+")", "{d}{d}.{d}.{d}", "{d}.{d}.{d}+{n}")
-		m = expandAll("{d}.{d}.{d}(|"+semverPre[1:len(semverPre)-1]+")(|+{n})", "{d}{d}.{d}.{d}", "{d}.{d}{d}.{d}{d}-{n}")
+		m = expandAll("{d}.{d}.{d}(|"+semverPreM[1:len(semverPreM)-1]+")(|+{n})", "{d}{d}.{d}.{d}", "{d}.{d}{d}.{d}{d}-{n}")
 		l = expandAll("{d}.{d}.{d}(|"+semverPreL[1:len(semverPreL)-1]+")(|+{n}|+{i}.{i})", "{d}{d}.{d}{d}.{d}{d}(|-{n}.{n})", "{d}{d}{d}{d}{d}{d}{d}{d}{d}{d}.{d}.{d}")
 	case "npm":
 		s = expandAll("(|v){d}.{d}.{d}(|"+semverPre[1:len(semverPre)-1]+")", "{d}{d}.{d}.{d}", "{d}.{d}.{d}+{n}")
-		m = expandAll("(|v){d}.{d}.{d}(|"+semverPre[1:len(semverPre)-1]+")(|+{n})", "{d}{d}.{d}.{d}", "{d}.{d}{d}.{d}{d}-{n}")
+		m = expandAll("(|v){d}.{d}.{d}(|"+semverPreM[1:len(semverPreM)-1]+")(|+{n})", "{d}{d}.{d}.{d}", "{d}.{d}{d}.{d}{d}-{n}")
 		l = expandAll("(|v){d}.{d}.{d}(|"+semverPreL[1:len(semverPreL)-1]+")(|+{n}|+{i}.{i})", "{d}{d}.{d}{d}.{d}{d}(|-{n}.{n})")
 	case "hex":
 		s = expandAll("{d}.{d}.{d}(|"+semverPre[1:len(semverPre)-1]+")", "{d}{d}.{d}.{d}", "{d}.{d}.{d}+{n}")
-		m = expandAll("{d}.{d}.{d}(|"+semverPre[1:len(semverPre)-1]+")(|+{n})", "{d}{d}.{d}.{d}", "{d}.{d}")
+		m = expandAll("{d}.{d}.{d}(|"+semverPreM[1:len(semverPreM)-1]+")(|+{n})", "{d}{d}.{d}.{d}", "{d}.{d}")
 		l = expandAll("{d}.{d}.{d}(|"+semverPreL[1:len(semverPreL)-1]+")(|+{n}|+{i}.{i})", "{d}{d}.{d}{d}.{d}{d}(|-{n}.{n})", "{d}.{d}")
 	case "golang":
 		ts14 := "20{d}{d}0{D}1{d}1{d}{[0-5]}{d}{[0-5]}{d}" // a valid 14-digit timestamp shape
 		pseudo := []string{"v{d}.0.0-" + ts14 + "-{h}{h}{h}{h}{h}{h}{h}{h}{h}{h}{h}{h}", "v{d}.{d}.{d}-0." + ts14 + "-{h}{h}{h}{h}{h}{h}{h}{h}{h}{h}{h}{h}", "v{d}.{d}.{d}-{l}{l}.0." + ts14 + "-{h}{h}{h}{h}{h}{h}{h}{h}{h}{h}{h}{h}"}
 		s = expandAll("v{d}.{d}.{d}(|"+semverPre[1:len(semverPre)-1]+")", "v{d}{d}.{d}.{d}", "{d}.{d}.{d}", "v{d}.{d}.{d}+{n}")
-		m = expandAll("(v|){d}.{d}.{d}(|"+semverPre[1:len(semverPre)-1]+")(|+{n})", "v{d}{d}.{d}.{d}", "v{d}.{d}.{d}+incompatible")
+		m = expandAll("(v|){d}.{d}.{d}(|"+semverPreM[1:len(semverPreM)-1]+")(|+{n})", "v{d}{d}.{d}.{d}", "v{d}.{d}.{d}+incompatible")
 		l = expandAll("(v|){d}.{d}.{d}(|"+semverPreL[1:len(semverPreL)-1]+")(|+{n}|+incompatible)", "v{d}{d}.{d}{d}.{d}{d}(|-{n}.{n})")
 		// pseudo-versions (three forms), with a timestamp shape that is always a valid date and, in
 		// the thorough tier, with 14 free digits (validity of the date is then part of the path)
@@ -153,7 +155,7 @@ func versionTemplates(eco, size string) []string {
 		l = append(l, pseudo[0], pseudo[1], pseudo[2], "v{d}.{d}.{d}-0.{d}{d}{d}{d}{d}{d}{d}{d}{d}{d}{d}{d}{d}{d}-{h}{h}{h}{h}{h}{h}{h}{h}{h}{h}{h}{h}")
 	case "nuget":
 		s = expandAll("{d}.{d}.{d}(|-{n}|-{n}.{n}|-{i}{i})", "{d}", "{d}.{d}", "{d}.{d}.{d}.{d}", "{d}{d}.{d}.{d}")
-		m = expandAll("(|v){d}(|.{d}|.{d}.{d}|.{d}.{d}.{d})(|-{n}|-{n}.{n}|-{i}{i}|-{n}{n}.{d})(|+{n})", "{d}{d}.{d}{d}")
+		m = expandAll("(|v){d}(|.{d}|.{d}.{d}|.{d}.{d}.{d})(|-{n}|-{n}.{n}|-{i}{i}|-{n}{n}.{d}|-{D}{d}{d}{d}{d}{d}{d}{d}{d}{d})(|+{n})", "{d}{d}.{d}{d}")
 		l = expandAll("(|v){d}(|.{d}|.{d}.{d}|.{d}.{d}.{d})(|"+semverPreL[1:len(semverPreL)-1]+")(|+{n})", "{d}{d}.{d}{d}.{d}{d}.{d}{d}")
 	case "debian":
 		s = expandAll("{d}.{d}", "{d}.{d}-{d}", "{d}:{d}.{d}", "{d}.{d}{[a-z+~.]}", "{d}{[a-z+~.]}{d}", "{d}.{d}{[a-z+~.\\-]}{[a-z+~.]}{l}{d}", "{d}.{d}+{l}{d}-{d}", "{d}{d}.{d}")
